@@ -277,10 +277,10 @@ def run(ck, tier):
     cx = Ctx()
     sh = TxShape(cx)
     ck.saw('functions', sh.ex.qn)
-    r1_bound(ck, cx, sh)
-    r2_table(ck, cx, sh)
-    r3_escape(ck, cx, sh)
-    r4_state(ck, cx, sh)
+    ck.guard(r1_bound, ck, cx, sh)
+    ck.guard(r2_table, ck, cx, sh)
+    ck.guard(r3_escape, ck, cx, sh)
+    ck.guard(r4_state, ck, cx, sh)
     ck.assume('wall-clock bounds of the transports\' blocking calls and _wait_for_data with timeout=None are not decided')
     ck.assume('that a following transaction returns the correct reply is not decided (C08 decides the pairing structure)')
     return cx.idx
